@@ -193,14 +193,18 @@ def consistent(g):
     if len(idset) != len(nodes): probs.append('node stored twice')
     ids = [n.id for n in nodes]
     if len(set(ids)) != len(ids): probs.append('id given to two nodes')
+    # multiplicity of every edge on both sides, by object identity (counted once per node, not once per edge)
+    from collections import Counter
+    nch = {id(n): Counter(id(x) for x in n.children) for n in nodes}
+    npa = {id(n): Counter(id(x) for x in n.parents) for n in nodes}
     for n in nodes:
         for c in n.children:
             if id(c) not in idset: probs.append(f'child {c.id} of {n.id} not in graph')
-            elif sum(1 for x in n.children if x is c) != sum(1 for x in c.parents if x is n):
+            elif nch[id(n)][id(c)] != npa[id(c)][id(n)]:
                 probs.append(f'edge {n.id}->{c.id} not mirrored')
         for p in n.parents:
             if id(p) not in idset: probs.append(f'parent {p.id} of {n.id} not in graph')
-            elif sum(1 for x in n.parents if x is p) != sum(1 for x in p.children if x is n):
+            elif npa[id(n)][id(p)] != nch[id(p)][id(n)]:
                 probs.append(f'edge {p.id}->{n.id} not mirrored')
     if sorted(g._id_to_node.keys()) != sorted(ids) or any(g._id_to_node.get(n.id) is not n for n in nodes):
         probs.append('id index differs from the nodes in the graph')
